@@ -39,7 +39,20 @@ META = {
                   'fanout_shape: every selected listener is sent the message, the request handlers ignore the sending connection); '
                   'histories contain change / read / do requests of listening and other connections, driver methods that assign the '
                   'parameter themselves (observed after every call of the funnel), and values closer to each other than the resolution '
-                  'of their datatype (drifts); the Lean monitors judge every implementation trace from the activation of each connection on.',
+                  'of their datatype (drifts); the Lean monitors judge every implementation trace from the activation of each connection on.  '
+                  'The TRANSPORT of the stream (TCPRequestHandler.send_reply, the handle loop, finish, Dispatcher.remove_connection; model '
+                  'Node/Transport.lean, the socket is a parameter: every sendall succeeds or raises after any part of the frame): '
+                  'transport_all_or_closed (any sequence of send_reply calls and rounds of the handler loop: a running connection has received '
+                  'every frame handed to it, a stopped one a prefix and is closed and forgotten by the next round; never a garbled line; '
+                  'listed = not closed), served_receives_all, transport_activate_replay_eq_cache (snapshot + any history of funnel calls through '
+                  'any socket behaviour: what a still listed peer RECEIVED replays to the cache), transport_preserves_statement (TraceOkO at '
+                  'send_reply implies TraceOkT at the peer, point by point), skip_on_failure_breaks / _garbles (a transport that skips a frame '
+                  'and goes on breaks the statement: closing is necessary), send_shape (generated source facts: every handler of the try around '
+                  'sendall sets running = False, sendall only under `if self.running`, both loops of handle test running, finish in a finally, '
+                  'finish -> remove_connection -> out of _connections / _active_connections / subscriptions, socket closed); suite tcp: the '
+                  'connections of a history are real TCPRequestHandler threads over scripted sockets (requests go through the socket; sendall '
+                  'of the n-th event message / reply fails with time-out, broken pipe, reset, OSError or another exception after 0 / some / '
+                  'all-but-one bytes; the peer reads again afterwards or not), model (verb tcp) vs. bytes received + open / listed, judged by judgeT.',
     'level_note': 'Trusted: Lean kernel + axioms propext/Quot.sound; hypothesis CanonExact (canonical values Python\'s != does not tell apart '
                   'have the same exported form) is tested on every case; callbacks re-entering the SAME parameter, callback trees deeper than one follower level, callbacks raising '
                   'BaseException, callbacks inside the small-step (concurrent) system, change requests with partial structs '
@@ -58,11 +71,17 @@ META = {
     'modelled_not_verified': [
         'datatype conversion / validation (oracle tables computed by the real datatypes)',
         'what a callback function does (oracle: returns / TypeError / other Exception, optional call of another funnel)',
-        'the transport behind connection.send_reply (observed at send_reply)',
+        'the socket under TCPRequestHandler.send_reply: a parameter of the transport model (each sendall sends the whole frame or raises '
+        'after part of it); in the tcp suite a scripted object, not a kernel socket: a full output buffer is represented by its effect '
+        '(sendall raising socket.timeout); framing / encoding of a message (encode_msg_frame, decode_msg) is C07',
+        'other interfaces than TCP (a RequestHandler subclass brings its own send_reply)',
         'which parameters a specifier subscribes to (computed by the harness: all exported parameters of the module(s) / the named one)',
         'import_value of the datum of a change request (oracle: the imported value or "refused"); partial structs are not sent',
     ],
-    'assumptions': ['a connection, once activated, stays activated (deactivation and disconnection: C08)',
+    'assumptions': ['a connection, once activated, stays activated unless the node gives it up after a failed send (then it must be closed '
+                    'and forgotten: transport suite); deactivation and disconnection by the client: C08',
+                    'the handler thread of a connection looks at `running` at least once per receive time-out (1 s): between a failed send and '
+                    'that moment the connection is still listed but silent; the statement is judged at quiescent points (after that round)',
                     'the clock never returns 0'],
 }
 
@@ -1783,7 +1802,9 @@ def run(ctx):
                 'datatypes under every update_unchanged / module / general window setting with clock steps inside, at and outside the '
                 'window; non-trivial = at least one message suppressed, one error announced and one recovery.  concurrent: 1-3 threads '
                 'x 1-3 operations on 1-2 parameters, 1-3 connections, systematic exploration with <= 2 preemptions plus random '
-                'schedules; non-trivial = two threads touched the same parameter and at least two messages were delivered')
+                'schedules; non-trivial = two threads touched the same parameter and at least two messages were delivered.  tcp: histories '
+                'of single-call operations with 1-3 real TCP handler threads over scripted sockets, 0-3 scripted sendall failures; '
+                'non-trivial = the node closed a connection, another one is still served and more than two messages arrived')
     big = ctx.tier == 'thorough' or ctx.escalated
     rng = ctx.rng
     errs = error_pool()
@@ -1881,7 +1902,7 @@ def run(ctx):
 
     # ---------------- the transport: connections = real TCP handlers over sockets whose peer stops reading ----------------
     tcases = list(tcp_corpus)
-    for _ in range(ctx.budget(800, 8000)):
+    for _ in range(ctx.budget(600, 8000)):
         tcases.append(gen_tcp(rng, big))
     tshrunk = 0
     for start in range(0, len(tcases), CH):
